@@ -18,7 +18,12 @@ if not NATIVE:
         def __init__(self, *a, **k):
             dict.__init__(self)
             self._it = []
-            for kk, v in dict(*a, **k).items():
+            if a:
+                src = a[0]
+                pairs = src.items() if hasattr(src, "items") else src
+                for kk, v in pairs:
+                    self[kk] = v
+            for kk, v in k.items():
                 self[kk] = v
 
         def _find(self, key):
@@ -69,8 +74,41 @@ if not NATIVE:
             return bool(self._it)
 
         def update(self, *a, **k):
-            for kk, v in dict(*a, **k).items():
+            if a:
+                src = a[0]
+                for kk, v in (src.items() if hasattr(src, "items") else src):
+                    self[kk] = v
+            for kk, v in k.items():
                 self[kk] = v
+
+        def pop(self, key, *default):
+            i = self._find(key)
+            if i < 0:
+                if default:
+                    return default[0]
+                raise KeyError(key)
+            return self._it.pop(i)[1]
+
+        def __delitem__(self, key):
+            i = self._find(key)
+            if i < 0:
+                raise KeyError(key)
+            del self._it[i]
+
+        def setdefault(self, key, default=None):
+            i = self._find(key)
+            if i >= 0:
+                return self._it[i][1]
+            self._it.append((key, default))
+            return default
+
+        def copy(self):
+            return SymKeyDict(self._it)
+
+        def __eq__(self, other):
+            return isinstance(other, dict) and list(self.items()) == list(other.items())
+
+        __hash__ = None
 
     class SymKeySet(set):
         """set whose members may be symbolic strings: membership is a solver-decided equality, no hashing (insertion ordered)"""
